@@ -727,13 +727,14 @@ func (x *Unit) execRange(st *State, s *ast.RangeStmt, fl *flow, label string) *S
 		st.env[idxObj] = Val{IntLit(0), types.Typ[types.Int]}
 		lb.auto = func(h *State) T {
 			i := h.env[idxObj].T
-			return And(Cmp(">=", i, IntLit(0)), Cmp("<=", i, x.u.MapLen(coll.T)))
+			return And(Cmp(">=", i, IntLit(0)), Cmp("<=", i, x.mapLenT(h, coll)))
 		}
-		lb.cond = func(h *State) T { return Cmp("<", h.env[idxObj].T, x.u.MapLen(coll.T)) }
+		lb.cond = func(h *State) T { return Cmp("<", h.env[idxObj].T, x.mapLenT(h, coll)) }
 		lb.body = func(h *State, inner *flow) *State {
 			k := x.freshVal(h, "key", tt.Key())
-			x.assume(h, And(Not(x.u.MapNil(coll.T)), Select(x.u.MapDom(coll.T), k.T)))
-			v := Val{Select(x.u.MapVal(coll.T), k.T), tt.Elem()}
+			x.assume(h, x.mapHas(h, coll, k.T))
+			x.assume(h, Cmp(">=", x.u.MapLen(x.mapContent(h, coll)), IntLit(1)))
+			v := Val{Select(x.u.MapVal(x.mapContent(h, coll)), k.T), tt.Elem()}
 			x.assume(h, x.typeInv(h, v, 1))
 			h.spec["$rangekey"] = k
 			setKV(h, &k, &v)
